@@ -507,6 +507,30 @@ class AI:
                     info[l] = ("t", rv["vidx"])
         return cur, eof, p, tok
 
+    def _const_range(self, body, op, inclusive):
+        """(lo, hi) inclusive bounds of a constant u8 range operand (promoted constant, named const, or literal aggregate)"""
+        from vlib import fmtargs
+
+        r = fmtargs.chase(body, op)
+        if r is None:
+            return None
+        lo = hi = None
+        if r[0] == "const" and "raw" in r[1] and "field_offsets" in r[1]:
+            offs = dict((n, o) for n, o in r[1]["field_offsets"])
+            if "start" in offs and "end" in offs:
+                lo, hi = r[1]["raw"][offs["start"]], r[1]["raw"][offs["end"]]
+        elif r[0] == "agg" and r[1].get("adt", "").split("::")[-1] in ("RangeInclusive", "Range"):
+            vals = [G.describe(body, o) for o in r[1]["ops"][:2]]
+            if all(v.kind == "const" for v in vals):
+                lo, hi = vals[0].v, vals[1].v
+        elif r[0] == "call" and strip_generics(mir.callee_name(r[1]) or "").endswith("RangeInclusive::new"):
+            vals = [G.describe(body, o) for o in r[1]["args"][:2]]
+            if all(v.kind == "const" for v in vals):
+                lo, hi = vals[0].v, vals[1].v
+        if lo is None:
+            return None
+        return (lo, hi) if inclusive else (lo, hi - 1)
+
     def _is_cur(self, info, op):
         pl = op_place(op)
         if pl is None:
@@ -670,6 +694,17 @@ class AI:
             bs = self.const_bytes(body, info, args[0])
             if bs is not None:
                 m = mask_of(bs)
+                out = []
+                if cur & m:
+                    out.append(done(cur=cur & m, dinfo=("i", 1)))
+                if cur & ~m & ALL:
+                    out.append(done(cur=cur & ~m & ALL, dinfo=("i", 0)))
+                return out
+            return [done()]
+        if name in ("std::ops::RangeInclusive::contains", "std::ops::Range::contains", "core::ops::RangeInclusive::contains") and len(args) == 2 and self.refers_cur(body, info, args[1]):
+            rg = self._const_range(body, args[0], inclusive="Inclusive" in name)
+            if rg is not None:
+                m = mask_range(rg[0], rg[1]) if rg[0] <= rg[1] else 0
                 out = []
                 if cur & m:
                     out.append(done(cur=cur & m, dinfo=("i", 1)))
